@@ -11,6 +11,7 @@ import J5V.Rules.Reader
 * `fieldTypeMembers` — the members of the `schema.Field.type` oneof,
 * `schemaMsgFields` — the fields of every j5 field / rules / ext message,
 * `writerReads` / `readerReads` — per branch ("unit"), the j5-schema fields / option fields read,
+* `rootWriterReads` / `rootWriterCopies` — the same for `visitObjectNode` / `visitOneofNode` (conversion.go),
 * `writerCopies` / `readerCopies` — per branch, every `(target, source, value text, guards)`:
   a key of a composite literal, an assignment through a selector, a `proto.SetExtension`, a
   `setJ5Ext` call, a plain assignment to a local; `guards` are the enclosing conditions and case
@@ -479,5 +480,71 @@ def listSlotFacts : Bool :=
   ([("Int32", "INT32"), ("Int64", "INT64"), ("Uint32", "UINT32"), ("Uint64", "UINT64")].all fun (p, f) =>
     guardsOf "buildField/Field_Integer" ("FieldConstraint_" ++ p ++ "." ++ p) ==
       [["st.Integer.ListRules != nil", "case IntegerField_FORMAT_" ++ f]])
+
+/-! ## roots (C04): object / oneof message options, entity annotation, any-membership -/
+
+def rootSlots : List Slot := [
+  ⟨"PSMOptions.EntityName", "node.Entity.Entity", "EntityObject.Entity", "psmExt.EntityName", ""⟩,
+  ⟨"PSMOptions.EntityPart", "node.Entity.Part.Enum()", "var part", "psmExt.EntityPart", ""⟩,
+  ⟨"ObjectMessageOptions.AnyMember", "node.AnyMember", "ObjectSchema.AnyMember", "opts.AnyMember", ""⟩ ]
+
+/-- `visitObjectNode` / `visitOneofNode` (conversion.go) against `buildObjectSchema`, `findPSMOptions`,
+`isOneofWrapper`: the three things an object root carries into its message options are exactly
+entity name, entity part and any-membership, each is read back from that very option field; the
+message is marked `object` / `oneof` in `(j5.ext.v1.message).type` and `isOneofWrapper` decides by
+that mark first (`Root.lean`: `writeRoot` / `readRoot`) -/
+def rootFacts : Bool :=
+  ((rootWriterCopies.filter fun c => cSrc c != "").map fun c => (cTarget c, cSrc c)) ==
+    rootSlots.map (fun s => (s.wTarget, s.wSrc)) &&
+  rootSlots.all (fun s => readerCopies.any fun c => cTarget c == s.rTarget && cSrc c == s.rSrc) &&
+  readerCopies.contains ("findPSMOptions", "EntityObject.Part", "", "part", []) &&
+  readerCopies.contains ("Package.buildObjectSchema", "ObjectSchema.Entity", "", "entity", ["entity != nil"]) &&
+  rootWriterCopies.contains ("conversionVisitor.visitObjectNode", "MessageOptions.Type", "", "MessageOptions_Object{…}", []) &&
+  rootWriterCopies.contains ("conversionVisitor.visitOneofNode", "MessageOptions.Type", "", "MessageOptions_Oneof{…}", []) &&
+  ((readerCopies.filter fun c => cUnit c == "isOneofWrapper" && (cGuards c).head? == some "options != nil").map
+      fun c => (cText c, cGuards c)) ==
+    [("true", ["options != nil", "options.IsOneofWrapper"]),
+     ("true", ["options != nil", "case MessageOptions_Oneof"]),
+     ("false", ["options != nil", "case MessageOptions_Object"])]
+
+/-- the reader's 'legacy' entity lookup — when the message has no `(j5.ext.v1.psm)` option, the
+option of the message type of its field `keys` is taken instead — is still there, and is the only
+re-assignment of the options: the open finding `schema-diff:root:entity:invented[keys-field]`
+(`C04_root_entity_invented_counterexample`). Removing it (the repair) changes this fact. -/
+def legacyKeysLookupFacts : Bool :=
+  (readerCopies.filter fun c => cTarget c == "var psmExt") ==
+    [("findPSMOptions", "var psmExt", "GetExtension(ext_j5pb.E_Psm)", "GetExtension(ext_j5pb.E_Psm)",
+      ["GetExtension(ext_j5pb.E_Psm) == nil"])]
+
+/-! ## integer bound range check (C12): `checkIntegerBound` = the model's `boundFits` -/
+
+/-- the interval each spelled test admits (`none` = unbounded on that side) -/
+def rangeOfText : String → Option (Option Int × Option Int)
+  | "*bound >= math.MinInt32 && *bound <= math.MaxInt32" => some (some (-(2 ^ 31)), some (2 ^ 31 - 1))
+  | "*bound >= 0 && *bound <= math.MaxUint32" => some (some 0, some (2 ^ 32 - 1))
+  | "*bound >= 0" => some (some 0, none)
+  | "true" => some (none, none)
+  | _ => none
+
+def inRangeOpt (r : Option Int × Option Int) (v : Int) : Bool :=
+  (match r.1 with | some lo => decide (lo ≤ v) | none => true) &&
+  (match r.2 with | some hi => decide (v ≤ hi) | none => true)
+
+def boundSamples : List Int :=
+  [-(2 ^ 63), -(2 ^ 31) - 1, -(2 ^ 31), -1, 0, 1, 2 ^ 31 - 1, 2 ^ 31, 2 ^ 32 - 1, 2 ^ 32, 2 ^ 63 - 1]
+
+/-- `checkIntegerBound` assigns `ok` in exactly four places (three format cases and `default`),
+each a recognised interval test, and for every format the test of its case (or `default`) agrees
+with the model's `boundFits` on every sample around every boundary -/
+def boundCheckFacts : Bool :=
+  let rows := (writerCopies.filter fun c => cUnit c == "checkIntegerBound" && cTarget c == "var ok").map
+    fun c => (cGuards c, cText c)
+  rows.length == 4 &&
+  intFormats.all fun (_, _, fcase, fmt, _) =>
+    let row := (rows.find? fun (g, _) => g == ["case IntegerField_FORMAT_" ++ fcase]).orElse
+      fun _ => rows.find? fun (g, _) => g == ["default"]
+    match row.bind fun (_, t) => rangeOfText t with
+    | some r => boundSamples.all fun v => inRangeOpt r v == boundFits fmt (some v)
+    | none => false
 
 end J5V.Rules.Src
